@@ -10,6 +10,7 @@ From CK Require Import Exec.
 From CK Require Import Struct.
 From CK Require Import RG.
 From CK Require Import RGProofs.
+From CK Require Import RGTree.
 Close Scope Qc_scope. Close Scope Q_scope. Close Scope Z_scope. Open Scope nat_scope.
 
 (* the executable validity predicate holds exactly when: roots cover all variables, every region is non-empty, every partition splits its region into non-empty pairwise-disjoint regions covering it *)
@@ -48,3 +49,42 @@ Theorem C16_linear_tree :
          rg_sd (linear_rg ord) = true /\ (forall v : nat, In v (rg_vars (linear_rg ord)) <-> In v ord).
 Proof. exact linear_valid. Qed.
 Print Assumptions C16_linear_tree.
+
+(* EVERY tree-shaped region graph (recursive splitting of a scope into >= 2 pairwise disjoint non-empty parts: RandomBinaryTree with one repetition, LinearTree, QuadTree, tree2rg / Chow-Liu) is valid, for all trees *)
+Theorem C16_tree_valid :
+  forall t : stree, wf_tree t = true -> rg_valid (tree_rg t) = true.
+Proof. exact tree_rg_valid. Qed.
+Print Assumptions C16_tree_valid.
+
+(* validity of a tree-shaped graph is exactly: leaves non-empty, no empty split, siblings pairwise disjoint *)
+Theorem C16_tree_valid_iff :
+  forall t : stree, rg_valid (tree_rg t) = wf1_tree t.
+Proof. exact tree_rg_valid_iff. Qed.
+Print Assumptions C16_tree_valid_iff.
+
+(* ... and structured-decomposable (needs >= 2 children per split: RGTree.unary_ex is the counterexample otherwise) *)
+Theorem C16_tree_structured_decomposable :
+  forall t : stree, wf_tree t = true -> rg_sd (tree_rg t) = true.
+Proof. exact tree_rg_sd. Qed.
+Print Assumptions C16_tree_structured_decomposable.
+
+(* several repetitions sharing only the root region (num_repetitions > 1) are valid (in general not structured-decomposable: RGTree.two_reps_not_sd) *)
+Theorem C16_repetitions_valid :
+  forall css : list (list stree), wf_multi css = true -> rg_valid (multi_rg css) = true.
+Proof. exact multi_rg_valid. Qed.
+Print Assumptions C16_repetitions_valid.
+
+(* the structured-decomposability flag depends only on the multiset of scope-level partitions, not on the numbering of regions or the order of partitions *)
+Theorem C16_sd_numbering_independent :
+  forall g1 g2 : rg,
+         Permutation (map (pfact (regions g1)) (parts g1)) (map (pfact (regions g2)) (parts g2)) ->
+         rg_sd g1 = rg_sd g2.
+Proof. exact rg_sd_facts_perm. Qed.
+Print Assumptions C16_sd_numbering_independent.
+
+(* partitions of a tree-shaped graph refer to later regions only (acyclic) *)
+Theorem C16_tree_topological :
+  forall (t : stree) (o : nat) (ins : list nat),
+         In (o, ins) (parts (tree_rg t)) -> forall j : nat, In j ins -> o < j < length (regions (tree_rg t)).
+Proof. exact tree_rg_topological. Qed.
+Print Assumptions C16_tree_topological.
